@@ -58,7 +58,9 @@ def make_ops(thorough):
         C("c2", "V", valid_units=("1000ft3",)),  # legacy spelling
         C("c2", "L", default_unit="cm"),
         C("c2", "L", default_unit="s"),  # outside the type
-        C("c2", "L", override=True, min_value=0.0, max_value=10.0, default_value=5.0),
+        C("c2", "L", override=True, min_value=0.0, max_value=10.0, default_value=10.0),  # default at the inclusive maximum
+        C("c2", "L", max_value=10.0),  # only a maximum: the default value is taken from it
+        C("c2", "L", min_value=5.0, max_value=5.0),  # one admissible amount
         C("c2", "L", override=True, min_value=0.0, max_value=10.0, default_value=20.0),  # outside limits
         C("c2", "L", min_value=0.0, is_min_exclusive=True),  # exclusive without default
         C("c2", "L", min_value=10.0, max_value=0.0),
@@ -72,6 +74,9 @@ def make_ops(thorough):
     if thorough:
         ops += [
             C("c1", "L", override=True, max_value=10.0, is_max_exclusive=True, default_value=10.0),  # at exclusive max
+            C("c2", "L", override=True, min_value=0.0, max_value=10.0, default_value=5.0),
+            C("c2", "L", override=True, min_value=0.0, max_value=10.0, default_value=0.0),  # default at the inclusive minimum
+            C("c1", "L", override=True, min_value=0.0, is_min_exclusive=True, default_value=1.0),
             C("c2", "L", override=True, valid_units=("cm", "m"), default_unit="m"),
             C("T", "T", valid_units=("min",)),
             U("V", "MMcf"),
@@ -332,10 +337,17 @@ def apply(s, op, part, hist):
     if v == "reject" and not hard:
         if exc is None:
             # the implementation accepts what the model would only softly reject: the model has no
-            # defined successor, stop exploring below (not a violation of the property)
+            # defined successor, stop exploring below (not a violation of the property) - but what was
+            # accepted must still leave a well-formed registry
             s.broken = True
             if part is not None:
                 part.count("soft_reject_accepted_by_impl")
+                inv = invariants(db)
+                if inv:
+                    ops_ = OPS[_T["t"]]
+                    hist_ops_ = [ops_[i] for i in hist] + [op]
+                    part.violation("C14:%s :: invariant %s (after a call the model only softly rejects)" % (" ; ".join(fmt(o) for o in hist_ops_), inv[0][0]), {"violated": inv[:4]},
+                                   "import sys\nfrom mc.props import c14\nsys.exit(c14.replay(%r))\n" % (hist_ops_,))
             return True
     else:
         verdict(model)
@@ -371,8 +383,8 @@ def apply(s, op, part, hist):
         return True
     impl_cats = {}
     for c, qt, vu, du, dv, mn, mx, mne, mxe, _cap in post[2]:
-        impl_cats[c] = (qt, None if vu is None else list(vu), du, dv, mn, mx)
-    model_cats = {c: (m["quantity_type"], m["valid_units"], m["default_unit"], m["default_value"], m["min_value"], m["max_value"]) for c, m in model.categories.items()}
+        impl_cats[c] = (qt, None if vu is None else list(vu), du, dv, mn, mx, bool(mne), bool(mxe))
+    model_cats = {c: (m["quantity_type"], m["valid_units"], m["default_unit"], m["default_value"], m["min_value"], m["max_value"], bool(m["min_excl"]), bool(m["max_excl"])) for c, m in model.categories.items()}
     if impl_cats != model_cats:
         diff = {c: [impl_cats.get(c), model_cats.get(c)] for c in set(impl_cats) | set(model_cats) if impl_cats.get(c) != model_cats.get(c)}
         bad("categories", {"impl_vs_model": diff})
